@@ -58,10 +58,11 @@ var Texts = map[string]string{
 	"s6a": `submodule s6a { belongs-to m6 { prefix m6; } include s6b; grouping ga { leaf la { type string; } } container ca { uses gb; } }`,
 	"s6b": `submodule s6b { belongs-to m6 { prefix m6; } grouping gb { leaf lb { type string; } } container cb; }`,
 	// two revisions of one module and an importer without revision-date: the import must follow the latest loaded
-	"bb-r1": `module bb { namespace "urn:bb"; prefix bb; revision 2020-01-01; grouping g { leaf old { type string; } } typedef t { type string; } }`,
-	"bb-r2": `module bb { namespace "urn:bb"; prefix bb; revision 2021-01-01; grouping g { leaf new { type string; } } typedef t { type int32; } }`,
+	"bb-r1": `module bb { namespace "urn:bb"; prefix bb; revision 2020-01-01; grouping g { leaf old { type string; } } typedef t { type string; } container bc { leaf only-r1 { type string; } leaf both { type string; } } }`,
+	"bb-r2": `module bb { namespace "urn:bb"; prefix bb; revision 2021-01-01; grouping g { leaf new { type string; } } typedef t { type int32; } container bc { leaf only-r2 { type string; } leaf both { type int8; } } }`,
 	"ib": `module ib { namespace "urn:ib"; prefix ib; import bb { prefix bb; } container c { uses bb:g; } leaf l { type bb:t; } typedef tl { type bb:t; } leaf k { type tl; }
-  leaf u { type union { type bb:t; type boolean; } } typedef tu { type union { type tl; type bb:t { pattern "p.*"; } } } leaf ku { type tu; } }`,
+  leaf u { type union { type bb:t; type boolean; } } typedef tu { type union { type tl; type bb:t { pattern "p.*"; } } } leaf ku { type tu; }
+  augment "/bb:bc" { leaf from-ib { type string; } } }`,
 	// accepted by the loader, rejected by Process: the errors must come back on every run
 	"e5": `module e5 { namespace "urn:e5"; prefix e5;
   typedef small { type int8 { range "1..500"; } }
@@ -267,6 +268,28 @@ func Dump(ms *yang.Modules, errs []error) string {
 				vs = append(vs, qual(v))
 			}
 			fmt.Fprintf(&sb, "%s identity %s [%s]\n", k, i.Name, strings.Join(vs, ","))
+		}
+		// lookups under the prefixes of this module's imports: they lead into the tree of the module the import denotes NOW
+		for _, imp := range m.Import {
+			if imp.Module == nil || imp.Prefix == nil {
+				continue
+			}
+			te := yang.ToEntry(imp.Module)
+			var cs []string
+			for n := range te.Dir {
+				cs = append(cs, n)
+			}
+			sort.Strings(cs)
+			for _, n := range cs {
+				res := "nothing"
+				switch got := e.Find("/" + imp.Prefix.Name + ":" + n); {
+				case got == te.Dir[n]:
+					res = "that node"
+				case got != nil:
+					res = "another node (" + got.Path() + ")"
+				}
+				fmt.Fprintf(&sb, "%s find /%s:%s (%s) -> %s\n", k, imp.Prefix.Name, n, imp.Module.FullName(), res)
+			}
 		}
 	}
 	return sb.String()
@@ -508,16 +531,23 @@ func Histories(r *core.Run, prop string, texts ...string) {
 		}
 		return false
 	}
-	cfg := "MCSession_quick2.cfg"
+	// one run per catalogue that holds one of the texts
+	need := map[string]bool{}
 	for _, t := range texts {
-		if first[t] {
-			cfg = "MCSession_quick.cfg"
-		}
-		if third[t] {
-			cfg = "MCSession_quick3.cfg"
+		switch {
+		case first[t]:
+			need["MCSession_quick.cfg"] = true
+		case third[t]:
+			need["MCSession_quick3.cfg"] = true
+		default:
+			need["MCSession_quick2.cfg"] = true
 		}
 	}
-	r.DirectionA("session", core.TLCOpts{Module: "MCSession", Cfg: cfg, Workers: 12, HeapGB: 16, Timeout: 0}, keep)
+	for _, cfg := range []string{"MCSession_quick.cfg", "MCSession_quick2.cfg", "MCSession_quick3.cfg"} {
+		if need[cfg] {
+			r.DirectionA("session", core.TLCOpts{Module: "MCSession", Cfg: cfg, Workers: 12, HeapGB: 16, Timeout: 0}, keep)
+		}
+	}
 	core.CaseSuffix = ""
 }
 
